@@ -23,16 +23,7 @@ use allocator::SExp;
 //@ end
 //@ include spec/serout.rs
 
-//@ extract const BUF_ALLOC_MULTIPLIER from src/classic/clvm/__type_compatibility__.rs
-//@ end
-//@ extract struct Stream from src/classic/clvm/__type_compatibility__.rs
-//@ end
-// the stream holds exactly its buffer; the write cursor of a stream that is only written to is at its end
-pub closed spec fn stream_data(s: Stream) -> Seq<u8> { s.buffer@ }
-pub closed spec fn stream_wf(s: Stream) -> bool { s.length == s.buffer@.len() && s.seek <= s.length }
-pub closed spec fn stream_seek(s: Stream) -> int { s.seek as int }
-pub closed spec fn stream_at_end(s: Stream) -> bool { s.seek == s.length }
-
+//@ include units/inc/stream_w.rs
 // R32: std::cmp::max on usize (vstd has no specification for the generic function)
 pub fn verif_max(a: usize, b: usize) -> (r: usize)
     ensures r == (if a >= b { a } else { b })
@@ -55,16 +46,7 @@ impl Stream {
 //@ extract fn write from src/classic/clvm/__type_compatibility__.rs in impl Stream
 //@ canary drop_last_byte @<for i in 0..b.length()>@ => @<for i in 0..(b.length() - 1)>@
 //@ replace all R32 @<max(>@ => @<verif_max(>@
-//@ sig r
-    requires stream_wf(*old(self)), stream_seek(*old(self)) + bv(b).len() <= usize::MAX / 4
-    ensures
-        stream_wf(*final(self)),
-        r == bv(b).len(),
-        stream_seek(*final(self)) == stream_seek(*old(self)) + bv(b).len(),
-        ({ let d0 = stream_data(*old(self)); let k = stream_seek(*old(self)); let n = bv(b).len() as int;
-           let tail_from = if k + n <= d0.len() { k + n } else { d0.len() as int };
-           stream_data(*final(self)) == d0.subrange(0, k) + bv(b) + d0.subrange(tail_from, d0.len() as int) }),
-        stream_at_end(*old(self)) ==> stream_at_end(*final(self)) && stream_data(*final(self)) == stream_data(*old(self)) + bv(b),
+//@ sigfile r contracts/stream_write.sig
 //@ before stmt @<let new_length>@
         let ghost d0 = self.buffer@;
         let ghost k = self.seek as int;
